@@ -45,6 +45,7 @@ func main() {
 	dumpEff := flag.String("dumpeff", "", "debug: dump effects of the named function")
 	list := flag.Bool("list", false, "debug: list functions")
 	genTabs := flag.Bool("gentables", false, "maintenance: print the frozen state-writer and failure-reason tables (tables_gen.go) for the current tree")
+	genDecl := flag.Bool("gendecls", false, "maintenance: print the reviewed declaration shapes (decls_gen.go) for the current tree")
 	genParams := flag.Bool("genparams", false, "maintenance: print the frozen parameter-name table (paramnames_gen.go) for the current tree")
 	flag.Parse()
 	if t := os.Getenv("VERIF_TIER"); t != "" && *tier == "" {
@@ -58,6 +59,16 @@ func main() {
 	}
 	os.Unsetenv("GOWORK")
 
+	if *genDecl {
+		noRenames = true
+		c, err := Load(*repo, "")
+		if err != nil {
+			fmt.Println(err)
+			os.Exit(2)
+		}
+		genDecls(c.Pkgs)
+		return
+	}
 	if *list || *dump != "" || *dumpEff != "" || *genParams || *genTabs {
 		c, err := Load(*repo, "")
 		if err != nil {
@@ -116,6 +127,10 @@ func main() {
 					fmt.Printf("alts %d: %v\n", i, alts)
 				}
 			}
+			return
+		}
+		if os.Getenv("DBG_ARITH") != "" {
+			dbgArith(c)
 			return
 		}
 		if os.Getenv("DBG_CALLEES") != "" {
@@ -186,6 +201,9 @@ func main() {
 			an.closedCalls(id)
 			r.Extra["configurations"] = appendStr(r.Extra["configurations"], cfgName)
 			r.Extra["functions_analysed"] = len(c.FuncSeq)
+			if len(recognisedRenames) > 0 {
+				r.Extra["renamed_declarations_read_under_their_reviewed_name"] = recognisedRenames
+			}
 			r.Extra["callgraph_nodes"] = len(c.CG.Nodes)
 		}
 	}
